@@ -48,6 +48,7 @@ func selectedStore(k int64) VPred {
 }
 
 func runC15(r *Run) {
+	checkAllStores(r, "C15.allstores", "(*data/ethereum.TrackerStore)", "the same Ethereum transaction can back a second tracker while the first one sits in that store")
 	p := r.P
 	ongoing, passed := ethConst(p, "PrefixOngoing"), ethConst(p, "PrefixPassed")
 	nameOfTx := func(field string) VPred {
